@@ -1803,6 +1803,14 @@ class RTCSctpTransport(AsyncIOEventEmitter):
     def _data_channel_closed(self, stream_id: int) -> None:
         channel = self._data_channels.pop(stream_id, None)
         if channel is not None:
+            # the stream has been reset: messages still queued for the
+            # datachannel must not be sent on it any more
+            new_queue: DataChannelQueue = deque()
+            for queue_item in self._data_channel_queue:
+                if queue_item[0] != channel:
+                    new_queue.append(queue_item)
+            self._data_channel_queue = new_queue
+
             channel._setReadyState("closed")
 
     async def _data_channel_flush(self) -> None:
